@@ -13,7 +13,7 @@ from common import CORPUS_DIR, call
 import gen_scenario as G
 import snapshot as S
 
-RULE = ("a case is one schema-expressible spec (scenario x planning-problem set, built through the public constructors) and one "
+RULE = ("trajectories have consecutive or gapped time steps (one in three); a case is one schema-expressible spec (scenario x planning-problem set, built through the public constructors) and one "
         "decimal precision 1..12; every spec is written and read back at 3 precisions (quick); enumerations of the XSD are visited "
         "round-robin; non-trivial = every case (each has >= 1 lanelet and >= 1 planning problem with truncated reals); "
         "distinct = distinct canonical JSON of (spec, precision)")
@@ -40,7 +40,7 @@ TRUSTED = ["harness/snapshot.py (structural snapshot through public accessors) a
 REQUIRED_BUCKETS = ["role:static", "role:dynamic", "role:environment", "role:phantom", "pred:trajectory", "pred:set",
                     "shape:rect", "shape:circ", "shape:poly", "shape:group", "state:interval", "state:region", "state:custom",
                     "init:no-acceleration", "sign:virtual", "signal:horn", "goal:lanelets", "goal:shape", "light:inactive",
-                    "stopline", "intersection", "precision:1", "precision:12", "xsd-valid", "3d", "witness:initial-extra",
+                    "stopline", "intersection", "precision:1", "precision:12", "xsd-valid", "3d", "witness:initial-extra", "traj:gaps", "traj:consecutive",
                     # every member of these XSD enumerations was used at least once
                     "enum-full:lineMarking", "enum-full:laneletType", "enum-full:vehicleType", "enum-full:obstacleTypeStatic",
                     "enum-full:obstacleTypeDynamic", "enum-full:obstacleTypeEnvironment", "enum-full:trafficLightColor",
@@ -130,6 +130,11 @@ def tags_of(ctx, spec, d):
             if sg and "horn" in sg["vals"]:
                 t("signal:horn")
         if o.get("prediction") and o["prediction"]["kind"] == "trajectory":
+            ts = [st["attrs"]["time_step"] for st in o["prediction"]["states"]]
+            if any(b - a > 1 for a, b in zip(ts, ts[1:])):
+                t("traj:gaps")
+            elif len(ts) > 1:
+                t("traj:consecutive")
             for st in o["prediction"]["states"]:
                 t("stateclass:" + st["cls"])
                 if st["cls"] == "CustomState":
